@@ -753,6 +753,208 @@ theorem asdf_writable_iff (lib : AsdfLib) (g : Grid) (f : Field) (b : ModeBasis)
   obtain ⟨tm, og⟩ := b
   cases og <;> simp [writeBasisAsdf, ModeBasis.toDict, bind, Except.bind, Except.toBool]
 
+/-! ## file names and formats: `read_*` / `write_*` as a whole
+
+`Model/Serial.lean`, "file names, formats and the dispatch": `resolveName` (`fmt is None` → guess from
+the name, `ValueError`), `to_dict()` before the dispatch, `dispatch` (`NotImplementedError`), then the
+format's writer / reader.  The driver op `filert` runs `write…File` / `read…File`; the harness
+compares write status, the format found in the file written (magic bytes), read status and the
+object read with the real functions on generated `(filename, fmt)` pairs. -/
+
+/-- `_guess_file_format`: whatever precedes the dot, the five documented extensions select the
+three formats (`.fits.gz` is FITS: it does not end in `fits`, the second test is needed; `.pickle`
+does not end in `pkl`).  The driver op `guess` runs `guessFormat`; the harness compares it with the
+real `_guess_file_format` on generated names. -/
+theorem guess_extensions (stem : List Char) :
+    guessFormat (stem ++ '.' :: sAsdf) = some .asdf ∧
+    guessFormat (stem ++ '.' :: sFits) = some .fits ∧
+    guessFormat (stem ++ '.' :: sFitsGz) = some .fits ∧
+    guessFormat (stem ++ '.' :: sPkl) = some .pickle ∧
+    guessFormat (stem ++ '.' :: sPickle) = some .pickle := by
+  have y := fun ext suf h => endsWith_append stem ext suf h
+  have n := fun ext suf h h' => not_endsWith_append stem ext suf h h'
+  refine ⟨?_, ?_, ?_, ?_, ?_⟩
+  · simp only [guessFormat, y ('.' :: sAsdf) sAsdf (by decide), if_true]
+  · simp only [guessFormat, y ('.' :: sFits) sFits (by decide),
+      n ('.' :: sFits) sAsdf (by decide) (by decide), Bool.true_or, if_true]
+    simp
+  · simp only [guessFormat, y ('.' :: sFitsGz) sFitsGz (by decide),
+      n ('.' :: sFitsGz) sAsdf (by decide) (by decide), Bool.or_true, if_true]
+    simp
+  · simp only [guessFormat, y ('.' :: sPkl) sPkl (by decide),
+      n ('.' :: sPkl) sAsdf (by decide) (by decide), n ('.' :: sPkl) sFits (by decide) (by decide),
+      n ('.' :: sPkl) sFitsGz (by decide) (by decide), Bool.true_or, if_true]
+    simp
+  · simp only [guessFormat, y ('.' :: sPickle) sPickle (by decide),
+      n ('.' :: sPickle) sAsdf (by decide) (by decide), n ('.' :: sPickle) sFits (by decide) (by decide),
+      n ('.' :: sPickle) sFitsGz (by decide) (by decide), Bool.or_true, if_true]
+    simp
+
+example : guessFormat "x.fits.gz".toList = some .fits ∧ guessFormat "myasdf".toList = some .asdf ∧
+    guessFormat "x.fit".toList = none ∧ formatOf "x.dat".toList (some "pickle") = .ok .pickle ∧
+    formatOf "x.asdf".toList (some "FITS") = .error .notImpl ∧ formatOf "x.dat".toList none = .error .value := by
+  decide +kernel
+
+/-- **`write_grid(g, filename, fmt)` then `read_grid(filename, fmt)`**, the functions the property
+names, for every file name and every `fmt` argument: the write succeeds exactly when a format is
+found (given, or guessed from the name), and then reading the same `(filename, fmt)` returns the
+grid (through pickle as it is, through asdf / FITS with NumPy-scalar weights as Python numbers). -/
+theorem grid_file_roundtrip (lib : AsdfLib) (hl : AsdfFaithful lib) (name : List Char)
+    (fmt : Option String) (g : Grid) (h : g.Ok) :
+    ((writeGridFile lib name fmt g).toBool = true ↔ (formatOf name fmt).toBool = true) ∧
+    ∀ c, writeGridFile lib name fmt g = .ok c →
+      ∃ f, formatOf name fmt = .ok f ∧
+        readGridFile name fmt c = .ok (if f = .pickle then g else g.pyWeights) := by
+  unfold writeGridFile readGridFile formatOf
+  cases hr : resolveName name fmt with
+  | error e => simp [bind, Except.bind, Except.toBool]
+  | ok s =>
+    cases hd : dispatch s with
+    | error e => simp [bind, Except.bind, Except.toBool, hd]
+    | ok f =>
+      have ha := asdf_grid_roundtrip lib hl g h
+      have hf := fits_grid_roundtrip lib hl g h
+      simp only [writeGridAsdf, writeGridFits, Except.bind] at ha hf
+      cases f <;>
+        simp [bind, Except.bind, Except.toBool, hd, Except.map, writeGridAsdf, writeGridFits, ha, hf]
+
+/-- **`write_field` then `read_field`** for every file name, `fmt` argument, tensor shape, grid kind
+and memory layout `l` of the data (pickle stores `__getstate__()`): which writes succeed, and that
+every file written reads back as the field. -/
+theorem field_file_roundtrip (lib : AsdfLib) (hl : AsdfFaithful lib) (l : Layout) (name : List Char)
+    (fmt : Option String) (f : Field) (ts : List Nat) (h : f.grid.Ok)
+    (hnd : 0 < f.grid.coords.ndim) (hshape : f.values.shape = ts ++ [f.grid.coords.size])
+    (hdata : f.values.data.length = prod f.values.shape) :
+    ((writeFieldFile lib l name fmt f).toBool = true ↔
+      ∃ k, formatOf name fmt = .ok k ∧
+        (k = .fits → f.grid.coords.isSeparated = false ∨ fitsDtypeOk f.values.dtype = true)) ∧
+    ∀ c, writeFieldFile lib l name fmt f = .ok c →
+      ∃ k, formatOf name fmt = .ok k ∧
+        readFieldFile name fmt c =
+          .ok (if k = .asdf then { f with grid := f.grid.pyWeights } else f) := by
+  unfold writeFieldFile readFieldFile formatOf
+  cases hr : resolveName name fmt with
+  | error e => simp [bind, Except.bind, Except.toBool]
+  | ok s =>
+    cases hd : dispatch s with
+    | error e => simp [bind, Except.bind, Except.toBool, hd]
+    | ok k =>
+      cases k with
+      | asdf =>
+        have ha := asdf_field_roundtrip lib hl f h
+        simp only [writeFieldAsdf, Except.bind] at ha
+        simp [bind, Except.bind, Except.toBool, hd, Except.map, writeFieldAsdf, ha]
+      | pickle =>
+        simp [bind, Except.bind, Except.toBool, hd, Except.map, field_pickle_roundtrip f l hdata]
+      | fits =>
+        have hwi := (fits_field_writable_iff f ts hshape).1
+        cases hw : writeFieldFits f with
+        | error e =>
+          rw [hw] at hwi
+          simp only [Except.toBool] at hwi
+          simp [bind, Except.bind, Except.toBool, hd, Except.map, hw]
+          constructor
+          · cases hs : f.grid.coords.isSeparated with
+            | true => rfl
+            | false => exact absurd (hwi.2 (Or.inl hs)) (by simp)
+          · cases hs : fitsDtypeOk f.values.dtype with
+            | false => rfl
+            | true => exact absurd (hwi.2 (Or.inr hs)) (by simp)
+        | ok file =>
+          rw [hw] at hwi
+          have hrt := fits_field_roundtrip f ts h hnd hshape file hw
+          have := hwi.1 rfl
+          simp [bind, Except.bind, Except.toBool, hd, Except.map, hw, hrt]
+          rcases this with h1 | h1 <;> simp [h1]
+
+/-- **`write_mode_basis` then `read_mode_basis`, dense bases**, for every file name and `fmt`. -/
+theorem basis_file_roundtrip_dense (lib : AsdfLib) (hl : AsdfFaithful lib) (name : List Char)
+    (fmt : Option String) (b : ModeBasis) (a : Arr) (g : Grid) (ts : List Nat) (m : Nat)
+    (htm : b.tm = .dense a) (hg : b.grid = some g) (h : g.Ok) (hnd : 0 < g.coords.ndim)
+    (hshape : a.shape = ts ++ [g.coords.size, m]) (hdata : a.data.length = prod a.shape) :
+    ∀ c, writeBasisFile lib name fmt b = .ok c →
+      ∃ k, formatOf name fmt = .ok k ∧
+        readBasisFile name fmt c =
+          .ok (if k = .asdf then { b with grid := some g.pyWeights } else b) := by
+  unfold writeBasisFile readBasisFile formatOf
+  have htd : ∃ t, b.toDict = .ok t := by
+    obtain ⟨tm, og⟩ := b
+    simp only at hg
+    subst hg
+    exact ⟨_, rfl⟩
+  obtain ⟨t, ht⟩ := htd
+  cases hr : resolveName name fmt with
+  | error e => simp [bind, Except.bind]
+  | ok s =>
+    cases hd : dispatch s with
+    | error e => simp [bind, Except.bind, hd, ht]
+    | ok k =>
+      cases k with
+      | asdf =>
+        have ha := asdf_basis_roundtrip lib hl b g hg h
+        cases hw : writeBasisAsdf lib b with
+        | error e => simp [bind, Except.bind, hd, ht, Except.map, hw]
+        | ok file =>
+          rw [hw] at ha
+          simp only [Except.bind] at ha
+          simp [bind, Except.bind, hd, ht, Except.map, hw, ha]
+      | pickle => simp [bind, Except.bind, hd, ht, Except.map]
+      | fits =>
+        cases hw : writeBasisFits b with
+        | error e => simp [bind, Except.bind, hd, ht, Except.map, hw]
+        | ok file =>
+          have hrt := fits_basis_dense_roundtrip b a g ts m htm hg h hnd hshape hdata file hw
+          simp [bind, Except.bind, hd, ht, Except.map, hw, hrt]
+
+/-- `to_dict()` comes before the dispatch: a basis without grid is refused with `AttributeError`
+whatever the format — pickle and formats that do not exist included. -/
+theorem basis_without_grid_not_writable (lib : AsdfLib) (name : List Char) (fmt : Option String)
+    (b : ModeBasis) (hg : b.grid = none) (s : String) (hr : resolveName name fmt = .ok s) :
+    writeBasisFile lib name fmt b = .error .attr := by
+  simp [writeBasisFile, hr, bind, Except.bind, modebasis_without_grid_has_no_dict b hg]
+
+/-- **`write_mode_basis` then `read_mode_basis`, sparse bases**: the basis read is sparse, on the
+same grid, with the same matrix (`todense()`), in every format. -/
+theorem basis_file_roundtrip_sparse (lib : AsdfLib) (hl : AsdfFaithful lib) (name : List Char)
+    (fmt : Option String) (b : ModeBasis) (c : Csc) (g : Grid) (m : Nat)
+    (htm : b.tm = .sparse c) (hg : b.grid = some g) (h : g.Ok) (hnd : 0 < g.coords.ndim)
+    (hshape : c.shape = [g.coords.size, m]) :
+    ∀ st, writeBasisFile lib name fmt b = .ok st →
+      ∃ k b', formatOf name fmt = .ok k ∧ readBasisFile name fmt st = .ok b' ∧
+        b'.isSparse = true ∧ b'.denseArr = b.denseArr ∧
+        b'.grid = (if k = .asdf then some g.pyWeights else some g) := by
+  unfold writeBasisFile readBasisFile formatOf
+  have hsp : b.isSparse = true := by simp [ModeBasis.isSparse, htm]
+  have htd : ∃ t, b.toDict = .ok t := by
+    obtain ⟨tm, og⟩ := b
+    simp only at hg
+    subst hg
+    exact ⟨_, rfl⟩
+  obtain ⟨t, ht⟩ := htd
+  cases hr : resolveName name fmt with
+  | error e => simp [bind, Except.bind]
+  | ok s =>
+    cases hd : dispatch s with
+    | error e => simp [bind, Except.bind, hd, ht]
+    | ok k =>
+      cases k with
+      | asdf =>
+        have ha := asdf_basis_roundtrip lib hl b g hg h
+        cases hw : writeBasisAsdf lib b with
+        | error e => simp [bind, Except.bind, hd, ht, Except.map, hw]
+        | ok file =>
+          rw [hw] at ha
+          simp only [Except.bind] at ha
+          simp [bind, Except.bind, hd, ht, Except.map, hw, ha]
+          exact ⟨by simpa [ModeBasis.isSparse] using hsp, by simp [ModeBasis.denseArr]⟩
+      | pickle => simp [bind, Except.bind, hd, ht, Except.map, hsp, hg]
+      | fits =>
+        cases hw : writeBasisFits b with
+        | error e => simp [bind, Except.bind, hd, ht, Except.map, hw]
+        | ok file =>
+          obtain ⟨b', h1, h2, h3, h4⟩ := fits_basis_sparse_roundtrip b c g m htm hg h hnd hshape file hw
+          simp [bind, Except.bind, hd, ht, Except.map, hw, h1, h2, h3, h4, hg]
+
 /-! ## Old — the unrepaired read/write paths and their counterexamples
 
 Documentation of the defects that were found (D14, D19, D160, D161): statements about `…Old`
